@@ -13,6 +13,13 @@
 //     and all connections together, timestamps taken after the read returns (a lower bound on time only);
 //  6. declared prefixes: PROXY protocol header (own parser; source = user's socket, destination = dialed
 //     address for directly exposed proxies), sniffed ClientHello / CONNECT request replayed byte-exactly.
+//
+// Violation keys (stable identities): stream-altered-up|down, bytes-injected, cross-wired, connection-duplicated,
+// unattributed-backend-connection, orderly-close-truncated-up|down, unprompted-close, delivery-stalled,
+// close-not-propagated-to-backend|user[-server-side-limit|-kcp-without-tcpmux], bandwidth-limit-exceeded-
+// server-mode|client-mode[-compressed], proxy-protocol-*, sniffed-prefix-not-replayed, tcpmux-early-data-lost,
+// tcpmux-connect-not-answered, https-tls-handshake-failed, greeting-not-delivered,
+// visitor-connection-dropped-when-backend-speaks-first, backend-connection-left-open.
 package main
 
 import (
@@ -21,7 +28,6 @@ import (
 	"math/rand"
 	"os"
 	"sort"
-	"strings"
 	"sync"
 	"sync/atomic"
 	"time"
@@ -84,7 +90,7 @@ transport.maxPoolCount = 5
 
 func main() {
 	run = h.NewRun(prop, "exploration")
-	run.Rule = "case = (server option set, control transport, TLS mode, pool size; 2-3 proxies each with kind, encryption, compression, limiter side+rate, PROXY version, greeting; 3-8 connection scripts each with payload sizes, content classes, chunkings, close order); the first cases form a greedy all-pairs covering array over the option factors, the rest are PRNG extras; distinct = distinct full case signature; every counted connection moved checked bytes or a checked close through a real frpc-frps tunnel"
+	run.Rule = "case = (server option set, control transport, TLS mode, pool size; 2-3 proxies each with kind, encryption, compression, limiter side+rate, PROXY version, greeting; 3-8 (sometimes 16-36 small simultaneous) connection scripts each with payload sizes, content classes, chunkings, close order); the first cases form a greedy all-pairs covering array over the option factors, the rest are PRNG extras, plus three fixed cases (kcp without tcpMux; visitor hand-over parked at a hook while the backend speaks first, on two servers); distinct = distinct full case signature; every counted connection moved checked bytes or a checked close through a real frpc-frps tunnel"
 	run.Assumptions = []string{
 		"'eventually delivered' is decided as bounded progress: 60 s without a byte on a connection whose both ends are open is a stall; a close must reach the other end within 30 s",
 		"kcp is excluded from the completeness clause of orderly close (the property says reliable transports); prefix, identity and close propagation are still judged over kcp",
@@ -106,7 +112,7 @@ func main() {
 		os.Exit(h.ExitHarnessError)
 	}
 
-	n := run.N(48, 400)
+	n := run.N(48, 1200)
 	cases, covered := genCases(n, run.Thorough(), func(i int) *rand.Rand { return run.RandFor("cfg", i) }, servers)
 	run.Set("option_pairs_covered", covered)
 	run.Set("option_pairs_total", totalPairs())
@@ -128,7 +134,7 @@ func main() {
 	for _, sv := range servers {
 		sv.s.Close()
 	}
-	run.Finish(run.N(20, 150))
+	run.Finish(run.N(20, 400))
 }
 
 const visitorHandoverHook = "server.registerVisitorConn.afterHandover"
@@ -216,11 +222,11 @@ type plan struct {
 	attached  atomic.Bool
 	failed    atomic.Bool
 	earlySent atomic.Bool
-	uGotAll  chan struct{}
-	bGotAll  chan struct{}
-	uClosed  chan struct{}
-	uDone    chan struct{}
-	bDone    chan struct{}
+	uGotAll   chan struct{}
+	bGotAll   chan struct{}
+	uClosed   chan struct{}
+	uDone     chan struct{}
+	bDone     chan struct{}
 
 	bUp   readRes
 	uDown readRes
@@ -587,5 +593,3 @@ func checkRate(cs *caseState, px *proxyRT) {
 		}
 	}
 }
-
-var _ = strings.Join
